@@ -35,8 +35,7 @@ def stripWS (sp : α → Bool) (b : List α) : List α := b.filter (fun c => !sp
     (clause by clause the same as `TW.step`) -/
 def GTW.step (sp : α → Bool) (t : GTW α) : GOp α → GTW α × List (List α)
   | .write b =>
-    if t.trim then ({ buf := t.buf ++ lstrip sp b, trim := false }, [])
-    else ({ buf := b, trim := false }, if t.buf.isEmpty then [] else [t.buf])
+    ({ buf := if t.trim then lstrip sp b else b, trim := false }, if t.buf.isEmpty then [] else [t.buf])
   | .trimLeft => ({ t with buf := [] }, [rstrip sp t.buf])
   | .trimRight => ({ t with trim := true }, [])
   | .flush => ({ t with buf := [] }, if t.buf.isEmpty then [] else [t.buf])
